@@ -42,3 +42,15 @@ package stream
 //@   stream 1 step INM released: stepErr == nil && lastInM().Type == 0 ==> forall(j, 0, len(pending), pending[j].EventTime.ns > lastInM().Watermark.ns)
 //@   stream 1 step INM late: lastInM().Type == 0 ==> forall(j, old(len(OUT)), len(OUT), OUT[j].EventTime.ns <= lastInM().Watermark.ns)
 //@   ensures errprop: runErr != nil ==> result != nil
+
+// C06 (output side): the stream_native printer. A failing write of a record or of a watermark line fails the callback
+// (and with it the query); a failing source and a failing Close of the format fail Run.
+//@ func (*NativeFormat).WriteRecord
+//@   ensures writeerr: lastres(Fprintf) != nil ==> result != nil
+//@ func (*NativeFormat).WriteMeta
+//@   ensures writeerr: lastres(Fprintf) != nil ==> result != nil
+//@ func (*OutputPrinter).Run
+//@   stream 1 step IN writeerr: lastres(WriteRecord) != nil ==> stepErr != nil
+//@   stream 1 step INM writeerr: lastres(WriteMeta) != nil ==> stepErr != nil
+//@   ensures errprop: runErr != nil ==> result != nil
+//@   ensures closeerr: runErr == nil && lastres(Close) != nil ==> result != nil
